@@ -32,14 +32,19 @@
                 patches the filter and each document it is matched against
       reads     `Cursor._compute_results`: stored documents as they are, or `makeAware` of them under
                 `tz_aware=True`                                             — `readDoc`
-      pipeline  `Collection.aggregate` (after the collation / array_filters / let checks, before the
-                input is read with `self.find()`): `pipeline = patch(pipeline)`, then under
-                `tz_aware=True` `pipeline = makeAware(pipeline)`            — `aggPipeline`
-                every datetime written anywhere in the pipeline (`$addFields`, `$project`,
-                `$literal`, `$group` keys and accumulator arguments, `$bucket` boundaries, `$facet`
-                and its sub-pipelines, `$replaceRoot`, expression operands, `$match`, `$out`) is
-                handed to `process_pipeline` in the form the collection's own documents are read
-                in; the caller's pipeline object is not written to (containers rebuilt, tuples
+      aggregate `Collection.aggregate` (after the collation / array_filters / let checks):
+                `pipeline = patch(pipeline)`                                — `aggPipeline`
+                the input is `list(self._get_dataset({}, None, None, dict))`: a copy of every stored
+                document, naive datetimes whatever `tz_aware` says          — `aggInput`
+                `$lookup` / `$graphLookup` patch every document they fetch; so every datetime
+                `process_pipeline` meets — stored, fetched, written in the pipeline (`$addFields`,
+                `$project`, `$literal`, `$group` keys and accumulator arguments, `$bucket`
+                boundaries, `$facet` and its sub-pipelines, `$replaceRoot`, expression operands,
+                `$match`, `$out`) or computed by it (`$dateFromParts`, `$add` of a date) — is naive;
+                under `tz_aware=True` the results are rebuilt at the end:
+                `CommandCursor(makeAware(list(results)))` — every datetime at any depth, `$group`
+                ids and `$facet` branches included                          — `aggResult`
+                the caller's pipeline object is not written to (containers rebuilt, tuples
                 become lists)
 
   Scope limits (outside the model): PEP 495 `fold`, tzinfo objects whose offset is not a fixed
@@ -256,14 +261,26 @@ def readFormB (tzAware : Bool) (us : Int) (off : Option Int) : Bool :=
 /-- `Collection.aggregate` (collection.py): the pipeline `process_pipeline` is handed for the
     pipeline the caller wrote —
         pipeline = helpers.patch_datetime_awareness_in_document(pipeline)
+    whatever the client's `tz_aware` -/
+def aggPipeline (pipeline : Val) : Val := patch pipeline
+
+/-- the input of the pipeline for a stored document: `list(self._get_dataset({}, None, None, dict))`
+    — a copy of the document as stored, not what `find()` would hand this client -/
+def aggInput (d : Val) : Val := d
+
+/-- one result document as the caller gets it:
         if self.codec_options.tz_aware:
-            pipeline = helpers.make_datetime_timezone_aware_in_document(pipeline) -/
-def aggPipeline (tzAware : Bool) (pipeline : Val) : Val :=
-  let p := patch pipeline
-  if tzAware then makeAware p else p
+            results = CommandCursor(make_datetime_timezone_aware_in_document(list(results))) -/
+def aggResult (tzAware : Bool) (r : Val) : Val := if tzAware then makeAware r else r
 
 /-- `Collection.aggregate` before the repair d1da933: the pipeline went to `process_pipeline` as
     written (only the `$match` stage normalised its own filter) -/
 def aggPipelineUnrepaired (_tzAware : Bool) (pipeline : Val) : Val := pipeline
+
+/-- `Collection.aggregate` between d1da933 and e05c961: the input was read with `self.find()`
+    (`readDoc tz`), and the results were handed out as `process_pipeline` computed them -/
+def aggInputUnrepaired (tzAware : Bool) (d : Val) : Val := readDoc tzAware d
+
+def aggResultUnrepaired (_tzAware : Bool) (r : Val) : Val := r
 
 end MongoModel
